@@ -114,6 +114,24 @@ def check(run):
                     if rr is not None and (rr.spin_weight != s or not np.array_equal(rr.ndarray, f.ndarray)):
                         run.violation("conjugate-not-involution", cname, inp, "conj(conj(f)) = f", "differs")
                 if s == 0:
+                    # correspondence for the weight formulas the theorems FuncAlg.real_imag_* speak about (realW / imagW):
+                    # entry (l, m>0) = (f_lm +- conj f_l,-m)/2 [times -i], entry (l, -m) = +-conj of it, entry (l, 0) = Re / Im
+                    A = f.ndarray
+                    wantR, wantI = np.zeros_like(A), np.zeros_like(A)
+                    for l in range(La + 1):
+                        i0 = l * (l + 1)
+                        wantR[..., i0] = A[..., i0].real
+                        wantI[..., i0] = A[..., i0].imag
+                        for m in range(1, l + 1):
+                            sg = 1.0 if m % 2 == 0 else -1.0
+                            wantR[..., i0 + m] = (A[..., i0 + m] + sg * np.conjugate(A[..., i0 - m])) / 2
+                            wantR[..., i0 - m] = sg * np.conjugate(wantR[..., i0 + m])
+                            wantI[..., i0 + m] = -1j * (A[..., i0 + m] - sg * np.conjugate(A[..., i0 - m])) / 2
+                            wantI[..., i0 - m] = sg * np.conjugate(wantI[..., i0 + m])
+                    for pname, got, want in (("f.real", attempt("f.real", inp, lambda: f.real), wantR), ("f.imag", attempt("f.imag", inp, lambda: f.imag), wantI)):
+                        run.corr_case("real-imag-weight-formula", (La, la, kf, pname), pname)
+                        if got is not None and not helpers.bits_equal(got.ndarray + 0.0, want + 0.0):
+                            run.corr_break("corr:real-imag-weight-formula", {**inp, "op": pname, "max_abs_diff": float(np.max(np.abs(got.ndarray - want)))})
                     for pname, op, expect in (("f.real", lambda: f.real, fe.real), ("f.imag", lambda: f.imag, fe.imag)):
                         r = attempt(pname, inp, op)
                         run.gap_case("real-imag", (La, la, pname), pname)
